@@ -203,6 +203,8 @@ def r13_play(ctx):
 
     def s_sleep(interp, args, kwargs, node):
         log_event('sleep', args[0] if args else None)
+        if args and isinstance(args[0], (int, float)) and not isinstance(args[0], bool):
+            clock['slept'] = clock.get('slept', 0.0) + args[0]
         return None
     ai.summaries['time.sleep'] = s_sleep
     B = P('B')
@@ -335,6 +337,35 @@ def r13_play(ctx):
             ok = False
             why = 'no execution waits for the scheduled time of the note behind the filtered marker'
     ctx.require(ok, 'R13.4', 'play(): the time of a message behind a filtered meta message', w, why, construct=f'{play.qname}::yielded-time')
+    # "sleeping exactly the remaining time", however little remains: with concrete numbers - one tick at 960 ticks per beat and
+    # 120 bpm is 0.52 ms, two ticks at 480 and 300 bpm are 0.83 ms, one tick at 30000 ticks per beat is 17 microseconds - and a clock that moves only while the player sleeps, the one message is waited for
+    # by exactly that long (a threshold other than "> 0" on the remaining time hands such a message out early)
+    for tpb_, tempo_, ticks_ in ((960, 500000, 1), (480, 200000, 2), (480, 500000, 1), (96, 500000, 3), (30000, 500000, 1), (480, 1000, 1)):
+        due = ticks_ * tempo_ * 1e-6 / tpb_
+
+        def still(interp, args, kwargs, node):
+            log_event('now', 0)
+            return 10.0 + clock.get('slept', 0.0)          # (time passes only while the player sleeps)
+        ai.summaries['test.still'] = still
+
+        def thunk_c():
+            clock['slept'] = 0.0
+            msgs = []
+            if tempo_ != 500000:
+                msgs.append(wire.make_meta(ai, ctx, 'set_tempo', {'tempo': tempo_}, 0))
+            nt = wire.make_message(ctx, 'note_on', {'channel': 0, 'note': 1, 'velocity': 64}, None)
+            nt.attrs['time'] = ticks_
+            msgs.append(nt)
+            mf = _file(ctx, ai, 1, AList([AList(msgs, 'MidiTrack')], 'list'), tpb_)
+            return ai.call_function(play, [mf], {'now': ExtRef('test.still')})
+        outs = ai.explore(thunk_c, limit=16)
+        ok = len(outs) == 1 and outs[0].kind == 'return'
+        sl = [e_[1] for e_ in outs[0].log if e_[0] == 'sleep'] if ok else []
+        ok = ok and len(sl) >= 1 and all(isinstance(x, (int, float)) for x in sl) and abs(sl[0] - due) < 1e-9 * due \
+            and all(abs(x) < 1e-9 for x in sl[1:])            # (a rounding residue may be waited for at the closing end_of_track)
+        ctx.require(ok, 'R13.4', f'play(): one note {ticks_} tick(s) in at {tpb_} ticks per beat and tempo {tempo_}, time passes only in sleep()', w,
+                    f'sleeps {sl if len(outs) == 1 else outs}; the note is due {due * 1000:.3f} ms after the start and must be waited for by exactly that',
+                    construct=f'{play.qname}::short-wait({tpb_},{tempo_},{ticks_})')
     for q in ai.inlined:
         ctx.functions.add(q)
 
